@@ -369,6 +369,31 @@ var nilFreeInputs = map[string]string{
 }
 
 func c16NilElements(c *Check, a *Anchors) {
+	producing := map[*types.Func]bool{}
+	builtSliceProducer = func(fn *types.Func) bool {
+		h := c.P.DeclOf(fn)
+		if h == nil || h.Decl == nil || !strings.HasPrefix(h.Pkg.PkgPath, Mod) || producing[fn] {
+			return false
+		}
+		producing[fn] = true
+		defer delete(producing, fn)
+		rets := returnsOf(h.Body)
+		if len(rets) == 0 {
+			return false
+		}
+		for _, r := range rets {
+			if len(r.Results) != 1 {
+				return false
+			}
+			if isNilLit(h.Info(), r.Results[0]) {
+				continue
+			}
+			if !builtFromDereferenced(h.Info(), h, r.Results[0]) {
+				return false
+			}
+		}
+		return true
+	}
 	c.Rule("yaml-nil-elements", "a YAML null inside a list decodes to a nil element of a []*T field of the ast types; every loop over such a slice that dereferences the element either tests the element against nil before the first dereference, or ranges over input that a named producer made nil-free (table)")
 	n := 0
 	ord := map[string]int{}
@@ -649,6 +674,13 @@ func builtFromDereferenced(info *types.Info, root *FuncBody, e ast.Expr) bool {
 		if !ok {
 			return false
 		}
+		// the result of a function of the package every return of which hands back such a slice
+		if fn, isFn := callee(info, call).(*types.Func); isFn && builtSliceProducer != nil {
+			if builtSliceProducer(fn) {
+				nApp++
+				continue
+			}
+		}
 		if isBuiltin(info, call, "make") {
 			if len(call.Args) >= 2 && !constIs(info, call.Args[1], "0") {
 				return false
@@ -680,3 +712,7 @@ func builtFromDereferenced(info *types.Info, root *FuncBody, e ast.Expr) bool {
 	}
 	return nApp > 0
 }
+
+// builtSliceProducer (set by the nil-elements rule): the function is declared in the module and every return of it yields a
+// local slice that is builtFromDereferenced in it.
+var builtSliceProducer func(fn *types.Func) bool
